@@ -308,6 +308,9 @@ class Gen:
     def stmt_unknown(self):
         r = self.r
         kw = r.choice(['@x', '@foo-bar', '@three-dee', '@zq'])
+        if self.hc == 'unknown-keyword':
+            # at-keywords that are not what they resemble: '@charset' is reserved in exactly that spelling, any other letter case is an unknown rule
+            kw = r.choice(['@Charset', '@CHARSET', '@cHARSET', '@FOO', '@Foo-Bar', '@x-Y'])
         prelude = [r.choice([('ident', 'y'), ('num', '', '1', '', 'px'), ('string', 'st'), ('ident', 'print')]) for _ in range(r.randint(0, 2))]
         block = None
         if r.random() < 0.6:
@@ -358,6 +361,8 @@ class Gen:
                 out.append(('comment', self.comment_text()))
             else:
                 out.append(self.stmt_unknown())
+        if self.hc == 'unknown-keyword':
+            out.insert(r.randint(len(out) - n, len(out)), self.stmt_unknown())
         return out
 
 
